@@ -69,7 +69,7 @@ ARGS = ["ab", "", "hello world", "é", 0, 1, -2.5, 3.14159, 1e21, 123456789, Tru
 PIECES = ["x", " ", "|", "é", "\\n", "\\t", "%%", "%s", "%f", "%v", "%5s", "%-5s", "%05f", "%8v", "%-8v|", "%3%",
           "%1s", "%0s", "%-0f", "%10f", "%2v", "%d", "%5", "%-", "%", "%65536s", "%65537s", "%-65537v",
           "%99999999999999999999s", "%18446744073709551621s", "%-18446744073709551621f|", "%18446744073709551616v", "%4294967301s", "%-4294967301s",
-          "%9223372036854775807s", "%-9223372036854775808s", "%9223372036854775808v", "%36893488147419103237s", "%007s", "%+5s", "%5.2f", "%ss", "% s",
+          "%9223372036854775807s", "%-9223372036854775808s", "%9223372036854775808v", "%36893488147419103237s", "%70000%|", "%-70000%", "%65537%", "%65536%|", "%065537%", "%5%|", "%-5%|", "%007s", "%+5s", "%5.2f", "%ss", "% s",
           "%-05s|", "%-03f|", "%-012v|", "%-007s|", "%-0v|", "%00s", "%-00005f|", "%010s|", "%-10v|", "%2s%-3s|"]
 
 
